@@ -40,7 +40,7 @@ RULE = ("waves: random complex spectra (band limit 0.5/0.67/1 of the grid), buil
 CLAUSES = ["annular", "integrate-radial", "integrate-radial-unshifted", "integrate-radial-base-chunked", "segmented-sum",
            "flexible-integrate", "additive", "flexible-bin-width", "lazy-detect", "history"]
 QUICK = dict(n=85, time=45)
-THOROUGH = dict(n=2400, time=420, shards=16)
+THOROUGH = dict(n=19200, time=480, shards=16)
 ASSUMPTIONS = ["detector centre offsets are not exercised (the statement is about centred annuli)",
                "flexible->integrate_radial is judged for limits on bin edges of the returned measurement only"]
 
